@@ -30,6 +30,9 @@ func DumpDT(cfg, pkg, fn string) {
 			dcfg.Opaque[o] = true
 		}
 	}
+	if os.Getenv("DT_MERLIN") != "" {
+		dcfg.WritesOverride = merlinWrites
+	}
 	paths := edt.Walk(dcfg, f)
 	fmt.Printf("%s: %d paths, atoms:\n", load.FuncName(f), len(paths))
 	for _, a := range edt.Atoms(paths) {
